@@ -209,19 +209,6 @@ Fixpoint pascal (cap : bool) (s : str) : str :=
   end.
 Definition us_to_dash (s : str) : str := map (fun c => if is_us c then "-" else c) s.   (* replace of every underscore by a dash *)
 
-Inductive outcome (A : Type) := Panic | Ok (a : A).
-Arguments Panic {A}. Arguments Ok {A} _.
-
-(* s[..1].to_ascii_lowercase() + &s[1..]: panics when s is empty or byte 1 is inside a character *)
-Definition lower_first_b (s : str) : outcome str :=
-  match s with
-  | [] => Panic
-  | c :: rest => match rest with
-                 | r :: _ => if is_cont r then Panic else Ok (lower c :: rest)
-                 | [] => Ok [lower c]
-                 end
-  end.
-
 (* apply_to_variant; SnakeCase puts an underscore before every upper-case letter but the first
    character and lower-cases everything (char::is_uppercase is read on ASCII only) *)
 Fixpoint snake_go (first : bool) (s : str) : str :=
@@ -230,16 +217,18 @@ Fixpoint snake_go (first : bool) (s : str) : str :=
   | c :: r => (if negb first && is_upper c then ["_"] else []) ++ lower c :: snake_go false r
   end.
 Definition snake (s : str) : str := snake_go true s.
-Definition apply_to_variant_b (r : rule) (s : str) : outcome str :=
+(* RenameRule::apply_to_variant for every rule but CamelCase (compute_variant_name computes that one
+   itself, see below) *)
+Definition apply_to_variant (r : rule) (s : str) : str :=
   match r with
-  | RPascal => Ok s
-  | RLower => Ok (map lower s)
-  | RUpper => Ok (map upper s)
-  | RCamel => lower_first_b s
-  | RSnake => Ok (snake s)
-  | RScreamingSnake => Ok (map upper (snake s))
-  | RKebab => Ok (us_to_dash (snake s))
-  | RScreamingKebab => Ok (us_to_dash (map upper (snake s)))
+  | RPascal => s
+  | RLower => map lower s
+  | RUpper => map upper s
+  | RCamel => s                      (* not reached *)
+  | RSnake => snake s
+  | RScreamingSnake => map upper (snake s)
+  | RKebab => us_to_dash (snake s)
+  | RScreamingKebab => us_to_dash (map upper (snake s))
   end.
 
 (* ------------------------------------------------------------------ template_context.rs *)
@@ -264,35 +253,37 @@ Definition compute_field_name (dfc : str) (name : str) (rename : option str) (ra
   | Some r => r
   | None => apply_naming_convention (match ra with Some c => c | None => default_case dfc end) name
   end.
-(* variants: rename > apply_to_variant of the container rule > the Rust name (no default case) *)
-Definition compute_variant_name (name : str) (rename : option str) (ra : option rule) : outcome str :=
+(* variants: rename > the variant form of the container rule > the Rust name (no default case).
+   CamelCase is computed at the call site: first character lowered through chars() (to_ascii_lowercase:
+   the identity on a non-ASCII character, hence on its first byte), the empty string for an empty name;
+   the other rules are the crate's apply_to_variant. Total. *)
+Definition variant_camel (s : str) : str := match s with [] => [] | c :: rest => lower c :: rest end.
+Definition compute_variant_name (name : str) (rename : option str) (ra : option rule) : str :=
   match rename, ra with
-  | Some r, _ => Ok r
-  | None, Some c => apply_to_variant_b c name
-  | None, None => Ok name
+  | Some r, _ => r
+  | None, Some RCamel => variant_camel name
+  | None, Some c => apply_to_variant c name
+  | None, None => name
   end.
 
 (* ------------------------------------------------------------------ struct_parser.rs + generators *)
 (* parse_field drops a struct field whose skip flag is set; parse_enum filters variants with the same
    flag. The generators print serialized_name of every remaining FieldInfo, in order:
    compute_field_name for fields, compute_variant_name for variants (rust_type starting with enum_variant). *)
-Fixpoint emit_raw (k : kind) (dfc : str) (ra : option rule) (l : list (str * list str)) : outcome (list str) :=
+Fixpoint emit_raw (k : kind) (dfc : str) (ra : option rule) (l : list (str * list str)) : list str :=
   match l with
-  | [] => Ok []
+  | [] => []
   | (ident, toks) :: r =>
       let '(rn, sk) := field_attrs toks in
       if sk then emit_raw k dfc ra r
-      else match (if is_struct k then Ok (compute_field_name dfc ident rn ra) else compute_variant_name ident rn ra),
-                 emit_raw k dfc ra r with
-           | Ok n, Ok ns => Ok (n :: ns)
-           | _, _ => Panic
-           end
+      else (if is_struct k then compute_field_name dfc ident rn ra else compute_variant_name ident rn ra)
+           :: emit_raw k dfc ra r
   end.
 (* the same on token strings given directly (attribute text outside the syntax above) *)
-Definition emitted_keys_raw (dfc : str) (k : kind) (ctoks : list str) (items : list (str * list str)) : outcome (list str) :=
+Definition emitted_keys_raw (dfc : str) (k : kind) (ctoks : list str) (items : list (str * list str)) : list str :=
   emit_raw k dfc (struct_attrs ctoks) items.
 Definition item_raw (it : item) : str * list str := (it_ident it, map group_string (it_attrs it)).
-Definition emitted_keys (dfc : str) (c : container) : outcome (list str) :=
+Definition emitted_keys (dfc : str) (c : container) : list str :=
   emitted_keys_raw dfc (c_kind c) (map cgroup_string (c_attrs c)) (map item_raw (c_items c)).
 
 Definition default_field_case : str := L "snake_case".      (* interface/config.rs default_field_case() *)
